@@ -32,7 +32,7 @@ ASSUMPTIONS = ["the two runs keep the same relative placement of output director
                "comment holding its own path relative to the definition root)",
                "byte differences between regenerated and shipped core_defs.py are reported as information (formatter versions may "
                "differ); the semantic signature must be equal"]
-REQUIRE = {"compiled_into_used_directory": 30, "closures_compiled_twice": 25, "output_files_compared": 150, "combined_roundtrips": 25, "core_defs_classes_compared": 50}
+REQUIRE = {"outputs_compiled_alone": 60, "compiled_into_used_directory": 30, "closures_compiled_twice": 25, "output_files_compared": 150, "combined_roundtrips": 25, "core_defs_classes_compared": 50}
 CASE_TIMEOUT = 300
 OUTS = ["out.py", "out.h", "out.js", "out.m", "out_combined.yaml", "out.txt"]
 
@@ -125,6 +125,19 @@ def run_case(case, tier):
                     i = next((k for k in range(min(len(la), len(lb))) if la[k] != lb[k]), min(len(la), len(lb)))
                     V.append({"mech": f"outputs_differ_through_symlink:{f.split('.')[-1]}", "detail": f"{f} line {i + 1}: {la[i:i + 1]} vs {lb[i:i + 1]}"})
                     break
+        # each output asked for on its own (CLI, one flag): what else is generated in the same call has no say in it
+        for lang, f in (("c", "out.h"), ("mat", "out.m"), ("js", "out.js"), ("py", "out.py"), ("combined", "out_combined.yaml"))[case["n"] % 2::2]:
+            od = work / "solo" / lang
+            od.mkdir(parents=True)
+            rc1, txt1 = L.compile_closure(a.root, od, name="out", langs=(lang,), cli=True, hashseed="1")
+            C["outputs_compiled_alone"] = C.get("outputs_compiled_alone", 0) + 1
+            if rc1 != 0:
+                V.append({"mech": "compile_failed_alone:" + str(L.classify_compile_failure(rc1, txt1)), "detail": f"only --{lang}: {txt1[-300:]}"})
+            elif (od / f).read_bytes() != (a.out / f).read_bytes():
+                la, lb = (a.out / f).read_text(errors="replace").splitlines(), (od / f).read_text(errors="replace").splitlines()
+                i = next((k for k in range(min(len(la), len(lb))) if la[k] != lb[k]), min(len(la), len(lb)))
+                V.append({"mech": f"output_depends_on_other_outputs_requested:{f.split('.')[-1]}",
+                          "detail": f"{f} line {i + 1}: all outputs in one call {la[i:i + 1]} vs this output alone {lb[i:i + 1]}"})
         for f in OUTS:
             fa, fb = a.out / f, b.out / f
             C["output_files_compared"] = C.get("output_files_compared", 0) + 1
